@@ -216,5 +216,5 @@ def main(tier):
     js = jobs(common.level("C17", tier))
     if common.level("C17", tier) == "deep":
         js = common.widen(js, by=(1, 2))
-    return common.run_space_check("C17", tier, js, RULE, ASSUME, budget_s=110 if tier == "quick" else 1500,
+    return common.run_space_check("C17", tier, js, RULE, ASSUME, budget_s=480 if tier == "quick" else 3000,
                                   confirm=confirm, witness=witness)
